@@ -228,10 +228,13 @@ func ParseMessage(reader *bufio.Reader) (*Message, error) {
 	if contentLength < 0 {
 		return nil, errors.New("invalid negative Content-Length field")
 	}
-	msg.body = make([]byte, contentLength)
-	if _, err = io.ReadFull(reader, msg.body); err != nil {
+	// read the body as it arrives instead of allocating the declared length up front:
+	// the memory used stays in proportion to the bytes actually received
+	body := bytes.NewBuffer(make([]byte, 0))
+	if _, err = io.CopyN(body, reader, int64(contentLength)); err != nil {
 		return nil, err
 	}
+	msg.body = body.Bytes()
 	return msg, nil
 }
 
